@@ -101,7 +101,7 @@ func GenOT(w *World, maxEdits int, opts ...string) *Scenario {
 	tpl := otTemplate(variant)
 	if hostile {
 		// odd source items: keys/destinations the CRD accepts
-		oddKeys := []string{".data.k", "", "data.k", "{.data.k}", "{.data", ".data.*", ".data.k.deeper", "..", ".metadata.labels"}
+		oddKeys := []string{".data.k", "", "data.k", "{.data.k}", "{.data", ".data.*", ".data.*", ".data[*]", ".data.list[*]", ".data.k.deeper", "..", ".metadata.labels", ".metadata.labels.*", `.metadata.labels[?(@=="never")]`, `.data[?(@.x=="y")]`}
 		oddDest := []string{".a", "", "a", ".a.b", ".a..b", ".", "..", ".a.0"}
 		for _, sx := range sources {
 			sm := sx.(map[string]any)
